@@ -3,4 +3,5 @@
    N, positive, Z, nat stay the extracted Coq datatypes; no Extract Constant. *)
 From Coq Require Extraction ExtrOcamlBasic.
 From Codec Require Script.
-Extraction "model.ml" Codec.Script.run_codec.
+From Topics Require Script.
+Extraction "model.ml" Codec.Script.run_codec Topics.Script.run_topics.
